@@ -265,6 +265,180 @@ theorem crash_read_then_append (x1 x2 x3 h1 h2 b0 : Bytes) (hh : HdrOk h2 b0) (c
     · intro j; by_cases hj : j = 0 <;> simp [setH, hj]
 
 
+/-! ### stale handle objects — of this or of another process — meeting a crash image
+
+The theorems above open the crash image with a fresh handle or re-use the handle that saw the image first.  A
+long-lived handle object that cached the library BEFORE the interrupted session (the usual case for a second process,
+or for a collection object that outlives many sessions) carries an old table of contents and an old end-of-file mark
+into the reopening.  These theorems cover it for every prefix it may have cached. -/
+
+/-- The file a crash leaves behind, in terms of the model's `crash`: when the session's puts had made the file
+`wfFile (committed ++ ps)`, dying with only `n` bytes of the session stream on disk leaves the crash image, removes
+the handle objects of the dead process and leaves every other handle object exactly as it was. -/
+theorem crash_world (w : World) (h1 h2 b0 : Bytes) (committed ps : List KV) (n : Nat) (dead : Nat → Bool)
+    (hf : w.file = some (wfFile h1 h2 b0 (committed ++ ps))) :
+    (crash w (bofOf h2 b0 + (blocks committed).length + n) dead).file = some (image h1 h2 b0 committed ps n) ∧
+    (∀ i, dead i = false → getH (crash w (bofOf h2 b0 + (blocks committed).length + n) dead) i = getH w i) ∧
+    (∀ i, dead i = true → getH (crash w (bofOf h2 b0 + (blocks committed).length + n) dead) i = none) := by
+  refine ⟨?_, ?_, ?_⟩
+  · simp only [crash, hf, Option.map_some, take_image]
+  · intro i hi; simp [crash, getH, hi]
+  · intro i hi; simp [crash, getH, hi]
+
+/-- `map_blocks` of a stale handle on the crash image, whichever branch is taken. -/
+theorem mapBlocks_stale (h : Handle) (h1 h2 b0 : Bytes) (committed ps : List KV) (n j : Nat)
+    (hc : ∀ r ∈ committed, r.ok) (hp : ∀ r ∈ ps, r.ok) (hk : ((committed ++ ps).map (·.key)).Nodup)
+    (hh2 : h.h2 = h2) (hb0 : h.b0 = b0)
+    (htoc : h.toc = tocOf (bofOf h2 b0) ((committed ++ completePrefix ps n).take j))
+    (heof : h.eof = some (bofOf h2 b0 + (blocks ((committed ++ completePrefix ps n).take j)).length)) :
+    ∃ l, mapBlocks h (image h1 h2 b0 committed ps n) =
+      ({ h with toc := tocOf (bofOf h2 b0) (committed ++ completePrefix ps n), last := l,
+                eof := some (bofOf h2 b0 + (blocks (committed ++ completePrefix ps n)).length) },
+       if h.mode ≠ .r then wfFile h1 h2 b0 (committed ++ completePrefix ps n) else image h1 h2 b0 committed ps n) := by
+  have hbof : h.bof = bofOf h2 b0 := by simp [Handle.bof, hh2, hb0]
+  have htake := image_take h1 h2 b0 committed ps n
+  have hle : bofOf h2 b0 + (blocks (committed ++ completePrefix ps n)).length ≤ (image h1 h2 b0 committed ps n).length := by
+    have := congrArg List.length htake
+    rw [wfFile_length, List.length_take] at this
+    omega
+  have hnd : ((committed ++ completePrefix ps n).map (·.key)).Nodup := by
+    have hpre : (committed ++ completePrefix ps n) <+: committed ++ ps :=
+      (List.prefix_append_right_inj committed).mpr (completePrefix_prefix_of_session ps n)
+    exact (hpre.sublist.map _).nodup hk
+  unfold mapBlocks
+  by_cases hcond : h.eof = some (image h1 h2 b0 committed ps n).length ∧ h.eof = h.lastEnd
+  · rw [if_pos hcond]
+    have hlen : (image h1 h2 b0 committed ps n).length =
+        bofOf h2 b0 + (blocks ((committed ++ completePrefix ps n).take j)).length := by
+      have := hcond.1; rw [heof] at this; exact (Option.some.inj this).symm
+    have hall : (committed ++ completePrefix ps n).take j = committed ++ completePrefix ps n :=
+      take_eq_of_blocks_length_le _ j (by omega)
+    rw [hall] at htoc heof hlen
+    have himg : image h1 h2 b0 committed ps n = wfFile h1 h2 b0 (committed ++ completePrefix ps n) := by
+      rw [← htake]; exact (List.take_of_length_le (by omega)).symm
+    refine ⟨h.last, ?_⟩
+    rw [himg]
+    clear hcond hbof hh2 hb0 hle
+    cases h
+    simp only at htoc heof
+    subst htoc; subst heof
+    simp
+  · rw [if_neg hcond]
+    simp only [hbof, scanFile_image h1 h2 b0 committed ps n hc hp]
+    have hmerge : tocMerge h.toc (tocOf (bofOf h2 b0) (committed ++ completePrefix ps n)) =
+        tocOf (bofOf h2 b0) (committed ++ completePrefix ps n) := by
+      rw [htoc]
+      exact tocMerge_prefix (bofOf h2 b0) (committed ++ completePrefix ps n) j hnd
+    refine ⟨lastKey (tocOf (bofOf h2 b0) (committed ++ completePrefix ps n)), ?_⟩
+    rw [hmerge]
+    by_cases hm : h.mode = .r
+    · simp [hm]
+    · by_cases hlt : bofOf h2 b0 + (blocks (committed ++ completePrefix ps n)).length < (image h1 h2 b0 committed ps n).length
+      · simp [hlt, hm, htake]
+      · have himg : image h1 h2 b0 committed ps n = wfFile h1 h2 b0 (committed ++ completePrefix ps n) := by
+          rw [← htake]; exact (List.take_of_length_le (by omega)).symm
+        rw [himg] at hlt
+        simp [himg, hm]
+        intro h'; exact absurd h' hlt
+
+
+/-- what a stale handle object looks like after it was reopened on a crash image -/
+def staleReopened (h : Handle) (m : Mode) (h1 h2 b0 : Bytes) (recs : List KV) (l : Option Bytes) : Handle :=
+  { h with mode := m, closed := false, h1 := pad16 h1, h2 := h2, b0 := b0,
+           toc := tocOf (bofOf h2 b0) recs, last := l, eof := some (bofOf h2 b0 + (blocks recs).length) }
+
+/-- A STALE handle object meets the crash image.  `g` is any closed handle object — of the surviving process
+or of another one — that cached ANY prefix of the records the image now holds (for instance exactly the
+committed records, because it was last open before the interrupted session, or fewer).  Reopening it, read-only
+or for appending, succeeds; it then lists exactly the committed records and the completely written records of the
+interrupted session at their exact positions (so every value reads back whole: `crash_get`), and when it was opened
+for appending the torn tail is cut and the handle is synchronised with the well-formed file. -/
+theorem crash_stale_reopen (w : World) (g : Nat) (h : Handle) (m : Mode) (hm : m = .r ∨ m = .a)
+    (h1 h2 b0 : Bytes) (hh : HdrOk h2 b0) (committed ps : List KV) (n j : Nat)
+    (hc : ∀ r ∈ committed, r.ok) (hp : ∀ r ∈ ps, r.ok) (hk : ((committed ++ ps).map (·.key)).Nodup)
+    (hg : getH w g = some h) (hcl : h.closed = true)
+    (hf : w.file = some (image h1 h2 b0 committed ps n))
+    (htoc : h.toc = tocOf (bofOf h2 b0) ((committed ++ completePrefix ps n).take j))
+    (heof : h.eof = some (bofOf h2 b0 + (blocks ((committed ++ completePrefix ps n).take j)).length)) :
+    ∃ l, step w (.reopen g (some m)) =
+      (setH { w with file := some (if m = .a then wfFile h1 h2 b0 (committed ++ completePrefix ps n)
+                                    else image h1 h2 b0 committed ps n) } g
+        (some (staleReopened h m h1 h2 b0 (committed ++ completePrefix ps n) l)), .ok) := by
+  have hrd : readHeader (image h1 h2 b0 committed ps n) = some (pad16 h1, h2, b0) := by
+    unfold image; rw [List.append_assoc]; exact readHeader_encHeader h1 h2 b0 hh.1 hh.2 _
+  obtain ⟨l, hmb⟩ := mapBlocks_stale { h with mode := m, h1 := pad16 h1, h2 := h2, b0 := b0 } h1 h2 b0 committed ps n j
+    hc hp hk rfl rfl htoc heof
+  refine ⟨l, ?_⟩
+  simp only [hcl] at hmb
+  rcases hm with rfl | rfl
+  · simp only [step, hg, hcl, hf, openHandle, hrd]
+    simp [hmb, staleReopened]
+  · simp only [step, hg, hcl, hf, openHandle, hrd]
+    simp [hmb, staleReopened]
+
+/-- Further appends through the stale handle: reopened for appending on the crash image it accepts any records with
+fresh keys; the file ends as the well-formed file of committed ++ complete part of the interrupted session ++ new
+records — no hole, no leftover of the torn block, nothing of the other handle's session overwritten. -/
+theorem crash_stale_then_append (w : World) (g : Nat) (h : Handle)
+    (h1 h2 b0 : Bytes) (hh : HdrOk h2 b0) (committed ps qs : List KV) (n j : Nat)
+    (hc : ∀ r ∈ committed, r.ok) (hp : ∀ r ∈ ps, r.ok) (hq : ∀ r ∈ qs, r.ok)
+    (hk : ((committed ++ ps).map (·.key)).Nodup)
+    (hkq : ((committed ++ completePrefix ps n ++ qs).map (·.key)).Nodup)
+    (hg : getH w g = some h) (hcl : h.closed = true)
+    (hf : w.file = some (image h1 h2 b0 committed ps n))
+    (htoc : h.toc = tocOf (bofOf h2 b0) ((committed ++ completePrefix ps n).take j))
+    (heof : h.eof = some (bofOf h2 b0 + (blocks ((committed ++ completePrefix ps n).take j)).length)) :
+    ∃ h', runW w (Op.reopen g (some .a) :: putOps g qs) =
+        setH { w with file := some (wfFile h1 h2 b0 (committed ++ completePrefix ps n ++ qs)) } g (some h') ∧
+      Synced h' h2 b0 (committed ++ completePrefix ps n ++ qs) ∧
+      (runOuts w (Op.reopen g (some .a) :: putOps g qs)).all Out.isOk = true := by
+  obtain ⟨l, hstep⟩ := crash_stale_reopen w g h .a (Or.inr rfl) h1 h2 b0 hh committed ps n j hc hp hk hg hcl hf htoc heof
+  simp only [if_true] at hstep
+  obtain ⟨h', hrun, hs', houts⟩ := puts_synced qs
+    (setH { w with file := some (wfFile h1 h2 b0 (committed ++ completePrefix ps n)) } g
+      (some (staleReopened h .a h1 h2 b0 (committed ++ completePrefix ps n) l)))
+    g (staleReopened h .a h1 h2 b0 (committed ++ completePrefix ps n) l) h1 h2 b0 (committed ++ completePrefix ps n)
+    (getH_setH_same _ g _) (by simp) ⟨rfl, by simp [staleReopened], rfl, rfl⟩ hq hkq
+  refine ⟨h', ?_, hs', ?_⟩
+  · simp only [runW, List.foldl_cons, hstep]
+    simp only [runW] at hrun
+    rw [hrun]
+    apply World.ext'
+    · simp
+    · intro i; by_cases hi : i = g <;> simp [setH, hi]
+  · simp only [runOuts, hstep, List.all_cons, Out.isOk, Bool.true_and]
+    exact houts
+
+
+/-- End to end, two processes: a writer process appends `ps` through its synchronised handle `a` and dies when only
+`n` bytes of its stream are on disk; the handle object `g` of ANOTHER process, closed and caching any prefix of the
+committed records, is then reopened (read-only or for appending).  It succeeds and shows exactly the committed
+records and the completely written records of the dead session. -/
+theorem other_process_crash (w : World) (a g : Nat) (hag : g ≠ a) (ha hgH : Handle) (m : Mode) (hm : m = .r ∨ m = .a)
+    (h1 h2 b0 : Bytes) (hh : HdrOk h2 b0) (committed ps : List KV) (n j : Nat) (hj : j ≤ committed.length)
+    (hc : ∀ r ∈ committed, r.ok) (hp : ∀ r ∈ ps, r.ok) (hk : ((committed ++ ps).map (·.key)).Nodup)
+    (hf : w.file = some (wfFile h1 h2 b0 committed))
+    (hfa : getH w a = some ha) (hsync : Synced ha h2 b0 committed)
+    (hgg : getH w g = some hgH) (hcl : hgH.closed = true)
+    (htoc : hgH.toc = tocOf (bofOf h2 b0) (committed.take j))
+    (heof : hgH.eof = some (bofOf h2 b0 + (blocks (committed.take j)).length)) :
+    ∃ l w2, w2 = crash (runW w (putOps a ps)) (bofOf h2 b0 + (blocks committed).length + n) (· == a) ∧
+      getH w2 a = none ∧
+      step w2 (.reopen g (some m)) =
+        (setH { w2 with file := some (if m = .a then wfFile h1 h2 b0 (committed ++ completePrefix ps n)
+                                       else image h1 h2 b0 committed ps n) } g
+          (some (staleReopened hgH m h1 h2 b0 (committed ++ completePrefix ps n) l)), .ok) := by
+  obtain ⟨h', hrun, _, _⟩ := puts_synced ps w a ha h1 h2 b0 committed hfa hf hsync hp hk
+  have hcw := crash_world (runW w (putOps a ps)) h1 h2 b0 committed ps n (· == a) (by rw [hrun]; rfl)
+  have hg2 : getH (crash (runW w (putOps a ps)) (bofOf h2 b0 + (blocks committed).length + n) (· == a)) g = some hgH := by
+    rw [hcw.2.1 g (by simp [hag]), hrun, getH_setH_other _ _ _ _ hag]
+    exact hgg
+  have htk : (committed ++ completePrefix ps n).take j = committed.take j := List.take_append_of_le_length hj
+  obtain ⟨l, hstep⟩ := crash_stale_reopen _ g hgH m hm h1 h2 b0 hh committed ps n j hc hp hk hg2 hcl hcw.1
+    (by rw [htk]; exact htoc) (by rw [htk]; exact heof)
+  exact ⟨l, _, rfl, hcw.2.2 a (by simp), hstep⟩
+
+
 /-! ### non-vacuity: a concrete crash image meets the hypotheses and behaves as stated -/
 
 def exCommitted : List KV := [⟨[107, 49], [1, 2, 3]⟩]
@@ -279,5 +453,17 @@ example : absFile (image defaultH1 [104, 105] [] exCommitted exSession 8) = exCo
 /-- cut after the first session record and inside the header of the second -/
 example : absFile (image defaultH1 [104, 105] [] exCommitted exSession 13) =
     exCommitted ++ [⟨[107, 50], [9, 9, 9, 9]⟩] := by decide +kernel
+
+/-- non-vacuity of the stale-handle theorems: handle 4 cached the committed record, handle 1 (another process) dies 13
+bytes into its two-record session; handle 4 reopened read-only lists the committed and the one complete record, and
+reopened for appending it accepts a further record; a fresh reader then sees all three and no torn one. -/
+example :
+    (run (crash (run initWorld
+        [.new 0 .w [] [104, 105] [], .put 0 [107, 49] [1, 2, 3], .close 0, .new 4 .r [] [] [], .close 4,
+         .new 1 .a [] [] [], .put 1 [107, 50] [9, 9, 9, 9], .put 1 [107, 51] []]).1 57 (· == 1))
+      [.reopen 4 (some .r), .keys 4, .get 4 [107, 50], .close 4, .reopen 4 (some .a), .put 4 [107, 52] [7], .close 4,
+       .keys 1, .new 3 .r [] [] [], .keys 3, .get 3 [107, 51]]).2 =
+    [.ok, .keys [[107, 49], [107, 50]], .val [9, 9, 9, 9], .ok, .ok, .ok, .ok,
+     .err .noHandle, .ok, .keys [[107, 49], [107, 50], [107, 52]], .err .noKey] := by decide +kernel
 
 end Molli.Props.C03
